@@ -266,6 +266,12 @@ def run(ctx):
         for k in range(per):
             cases.append(make_case("c%d" % n, ctx.rng, schema, 2 + (k % 2), 20 + (k % 3) * 10))
             n += 1
+        # many tracks side by side (row ids with more than one digit): the frame condition is then judged over 13-40 bystanders
+        for k in range(1 if ctx.tier == "quick" else 12):
+            nt = 13 if ctx.tier == "quick" else ctx.rng.choice([11, 13, 21, 40])
+            cases.append(make_case("c%d" % n, ctx.rng, schema, nt, 36))
+            ctx.bump_in("tracks_per_history", str(nt))
+            n += 1
     c0 = cases[0]
     ctx.sample({"schema": c0["schema"], "setter_sequence": [(m["field"], str(m.get("value"))[:40]) for m in c0["_metas"] if m and m["kind"] != "create"][:12]})
     ctx.assumptions += [
